@@ -722,3 +722,251 @@ def m_string_pop(I, a, t, c):
     I.store(a[0], StrV(list(s.chars[:-1])))
     ch = s.chars[-1]
     return M.some(BV(32, ord(ch)) if isinstance(ch, str) else ch)
+
+
+@model('simple_logger::init_with_level', 'simple_logger::init')
+def m_logger_init(I, a, t, c):
+    return M._ok(UNIT)
+
+
+@model('std::time::Instant::now')
+def m_instant_now(I, a, t, c):
+    return Opaque('Instant')
+
+
+@model('std::time::Instant::duration_since', 'std::time::Instant::elapsed')
+def m_instant_since(I, a, t, c):
+    return Opaque('Duration')
+
+
+@model('std::time::Duration::as_secs')
+def m_duration_secs(I, a, t, c):
+    return BV(64, 0)
+
+
+@model('std::io::_eprint', 'std::io::_print')
+def m_eprint(I, a, t, c):
+    if c.name.endswith('_print'):
+        if not hasattr(I, 'stdout_text'):
+            I.stdout_text = []
+        I.stdout_text.append(render_args(I, a[0]))
+    return UNIT
+
+
+# ---- regex (used on file names only): patterns are in the common subset of the `regex` crate and python `re`
+@model('regex::Regex::new')
+def m_regex_new(I, a, t, c):
+    import re as _re
+    pat = M._strval(I, a[0])
+    try:
+        _re.compile(pat)
+    except _re.error as e:
+        raise Unsupported('regex %r: %s' % (pat, e))
+    return M._ok(Agg('regex', 0, [pat]))
+
+
+@model('regex::Regex::captures')
+def m_regex_captures(I, a, t, c):
+    import re as _re
+    rx = _deref(I, a[0])
+    s = M._strval(I, a[1])
+    m = _re.search(rx.fields[0], s)
+    if not m:
+        return M.NONE
+    return M.some(Agg('captures', 0, [[m.group(0)] + list(m.groups())]))
+
+
+@model('regex::Regex::is_match')
+def m_regex_is_match(I, a, t, c):
+    import re as _re
+    return M.bv_bool(_re.search(_deref(I, a[0]).fields[0], M._strval(I, a[1])) is not None)
+
+
+@model('<regex::Captures<\'h> as std::ops::Index<usize>>::index', '<regex::Captures as std::ops::Index<usize>>::index')
+def m_captures_index(I, a, t, c):
+    cp = _deref(I, a[0])
+    i = I.conc(a[1])
+    g = cp.fields[0][i]
+    if g is None:
+        raise Panic('captures-index', 'no group %d' % i, t.span)
+    return RefV(Cell(StrV(list(g)), 'capture'))
+
+
+@model('std::option::Option::or', 'std::option::Option::<T>::or')
+def m_opt_or(I, a, t, c):
+    return a[0] if a[0].variant == 1 else a[1]
+
+
+@model('std::option::Option::unwrap_or', 'std::option::Option::<T>::unwrap_or')
+def m_opt_unwrap_or2(I, a, t, c):
+    return a[0].fields[0] if a[0].variant == 1 else a[1]
+
+
+@model('<std::option::Option<T> as std::clone::Clone>::clone')
+def m_opt_clone(I, a, t, c):
+    return _deref(I, a[0])
+
+
+# ---- text files (names lists, build file lists): I.text_files = {path: text}
+@model('std::fs::File::open')
+def m_file_open(I, a, t, c):
+    path = M._strval(I, a[0])
+    tf = getattr(I, 'text_files', None)
+    if tf is None or path not in tf:
+        return Agg('adt:std::result::Result', 1, [Opaque(('io-error', path))])
+    return M._ok(Agg('textfile', 0, [tf[path]]))
+
+
+@model('std::io::BufReader::new')
+def m_bufreader_new(I, a, t, c):
+    return a[0]
+
+
+@model('std::io::BufRead::lines')
+def m_bufread_lines(I, a, t, c):
+    f = _deref(I, a[0])
+    if not (isinstance(f, Agg) and f.kind == 'textfile'):
+        raise Unsupported('lines() of %r' % (f,))
+    txt = f.fields[0]
+    lines = txt.split('\n')
+    if lines and lines[-1] == '':
+        lines = lines[:-1]
+    return Agg('iter', 0, [[M._ok(StrV(list(l.rstrip('\r')))) for l in lines], 0])
+
+
+# ---- `{}` / `{:?}` of a crate type: run its own Display / Debug implementation into a temporary sink
+_render_base = _render
+
+
+def _render(I, kind, v, flags=0, width=None, precision=None):
+    dv = _deref(I, v)
+    if isinstance(dv, Agg) and dv.kind.startswith('adt:') and not dv.kind.startswith('adt:std::'):
+        tr = 'Display' if kind == 'display' else 'Debug'
+        path = dv.kind[4:]
+        cands = [n for n in I.facts.by_name if n.startswith('<' + path) and n.endswith(' as std::fmt::%s>::fmt' % tr)]
+        if len(cands) == 1:
+            sink = Cell(Agg('sink', 0, ['fmt', []]), 'fmt')
+            ref = v if isinstance(v, RefV) else RefV(Cell(dv, 'fmt-arg'))
+            while isinstance(ref, RefV) and isinstance(I.load(ref), RefV):
+                ref = I.load(ref)
+            I.call_fn(cands[0], [ref, RefV(sink)])
+            return ''.join(sink.v.fields[1])
+    return _render_base(I, kind, v, flags, width, precision)
+
+
+@model('std::string::String::as_str', 'std::string::String::as_mut_str', '<std::string::String as std::convert::AsRef<str>>::as_ref',
+       '<std::string::String as std::borrow::Borrow<str>>::borrow', '<str as std::convert::AsRef<str>>::as_ref')
+def m_string_as_str(I, a, t, c):
+    return a[0]
+
+
+# carry the monomorphic type of a formatting argument (Argument::new_display::<MergeSkaArray<u128>>) to its Display impl
+@model('core::fmt::rt::Argument::new_display')
+def m_arg_display2(I, a, t, c):
+    return Agg('fmtarg', 0, ['display', a[0], c.full or ''])
+
+
+@model('core::fmt::rt::Argument::new_debug')
+def m_arg_debug2(I, a, t, c):
+    return Agg('fmtarg', 0, ['debug', a[0], c.full or ''])
+
+
+@model('std::fmt::Arguments::new')
+def m_args_new2(I, a, t, c):
+    tv = _deref(I, a[0])
+    if isinstance(tv, Agg) and tv.kind == 'array':
+        tpl = [I.conc(x) for x in tv.fields]
+    else:
+        raise Unsupported('format template %r' % (tv,))
+    av = I.load(a[1]) if isinstance(a[1], RefV) else a[1]
+    args = []
+    for x in av.fields:
+        if not (isinstance(x, Agg) and x.kind == 'fmtarg'):
+            raise Unsupported('format argument %r' % (x,))
+        hint = x.fields[2] if len(x.fields) > 2 else ''
+        args.append((x.fields[0] + ('@u128' if '<u128>' in hint else ('@u64' if '<u64>' in hint else '')), x.fields[1]))
+    return Agg('fmtargs', 0, [tpl, args])
+
+
+_render_base2 = _render
+
+
+def _render(I, kind, v, flags=0, width=None, precision=None):
+    w = None
+    if '@' in kind:
+        kind, w = kind.split('@')
+    if w and I.subst.get('IntT') != w:
+        old = (I.subst.get('IntT'), I.subst.get('Self'))
+        I.subst['IntT'] = w
+        I.subst['Self'] = w
+        try:
+            return _render_base2(I, kind, v, flags, width, precision)
+        finally:
+            I.subst['IntT'], I.subst['Self'] = old
+    return _render_base2(I, kind, v, flags, width, precision)
+
+
+# ---- f64 rendering as core::fmt does it (shortest round-trip digits; Display never switches to exponent form, an integral
+#      value prints without a fraction; LowerExp prints d.ddde<exp>), and the {:e} argument constructor
+def _float_digits(x):
+    from decimal import Decimal
+    sign, digits, exp = Decimal(repr(abs(x))).as_tuple()
+    digits = list(digits)
+    while len(digits) > 1 and digits[-1] == 0:
+        digits.pop()
+        exp += 1
+    return digits, exp          # value = 0.d1d2.. * 10^(exp + len(digits))  ==  d1d2.. * 10^exp
+
+
+def fmt_f64(x, kind='display', precision=None):
+    import math
+    if x != x:
+        return 'NaN'
+    if math.isinf(x):
+        return 'inf' if x > 0 else '-inf'
+    neg = math.copysign(1.0, x) < 0
+    sgn = '-' if neg else ''
+    if kind == 'lower_exp':
+        if precision is not None:
+            s = '%.*e' % (precision, abs(x))
+            m, e = s.split('e')
+            return sgn + m + 'e' + str(int(e))
+        if x == 0:
+            return sgn + '0e0'
+        digits, exp = _float_digits(x)
+        e10 = exp + len(digits) - 1
+        m = str(digits[0]) + ('.' + ''.join(map(str, digits[1:])) if len(digits) > 1 else '')
+        return sgn + m + 'e' + str(e10)
+    if precision is not None:
+        return sgn + '%.*f' % (precision, abs(x))
+    if x == 0:
+        return sgn + ('0' if kind == 'display' else '0.0')
+    digits, exp = _float_digits(x)
+    ds = ''.join(map(str, digits))
+    if exp >= 0:
+        s = ds + '0' * exp
+        return sgn + s + ('.0' if kind == 'debug' else '')
+    if -exp < len(ds):
+        return sgn + ds[:exp] + '.' + ds[exp:]
+    return sgn + '0.' + '0' * (-exp - len(ds)) + ds
+
+
+@model('core::fmt::rt::Argument::new_lower_exp')
+def m_arg_lower_exp(I, a, t, c):
+    return Agg('fmtarg', 0, ['lower_exp', a[0], c.full or ''])
+
+
+_render_base3 = _render
+
+
+def _render(I, kind, v, flags=0, width=None, precision=None):
+    base = kind.split('@')[0]
+    dv = _deref(I, v)
+    if isinstance(dv, float):
+        s = fmt_f64(dv, base, precision)
+        if width is not None and len(s) < width:
+            s = ' ' * (width - len(s)) + s
+        return s
+    if base == 'lower_exp':
+        raise Unsupported('{:e} of %r' % (dv,))
+    return _render_base3(I, kind, v, flags, width, precision)
